@@ -43,6 +43,20 @@ pub open spec fn result_ty(op: BinaryOp, a: Ty, b: Ty) -> Ty {
         _ => Ty::Bool,
     }
 }
+// evaluation events of the two operands of one `and` / `or` (the operand VALUES are fixed ghosts; what is recorded is how often each
+// operand expression is evaluated: an operand may print, assign or call)
+pub struct Ev { pub lhs: Ghost<Value>, pub rhs: Ghost<Value>, pub lhs_evals: Ghost<nat>, pub rhs_evals: Ghost<nat> }
+impl Ev {
+    #[verifier::external_body]
+    pub fn eval_lhs(&mut self) -> (r: Result<Value, RtErr>)
+        requires old(self).rhs_evals@ == 0          // left to right
+        ensures r == Ok::<Value, RtErr>(old(self).lhs@), final(self).lhs_evals@ == old(self).lhs_evals@ + 1, final(self).rhs_evals@ == old(self).rhs_evals@, final(self).lhs@ == old(self).lhs@, final(self).rhs@ == old(self).rhs@
+    { unimplemented!() }
+    #[verifier::external_body]
+    pub fn eval_rhs(&mut self) -> (r: Result<Value, RtErr>)
+        ensures r == Ok::<Value, RtErr>(old(self).rhs@), final(self).rhs_evals@ == old(self).rhs_evals@ + 1, final(self).lhs_evals@ == old(self).lhs_evals@, final(self).lhs@ == old(self).lhs@, final(self).rhs@ == old(self).rhs@
+    { unimplemented!() }
+}
 pub open spec fn truthy(v: Value) -> bool { v == Value::Bool(true) }
 pub open spec fn boolish(v: Value) -> bool { ty(v) == Ty::Bool || ty(v) == Ty::Null }
 '''
@@ -82,21 +96,29 @@ UNIT = VUnit(
               ],
               real_name="Runtime::eval_expr (Expr::Binary: operand-type dispatch)"),
         # `and`: short-circuits on a falsy left operand, otherwise the right operand decides and must be boolean or null
+        # `and` / `or`: the left operand is evaluated exactly once and first; the right operand is evaluated at most once, and exactly when the
+        # left one does not already decide the result (short circuit: a falsy left operand of `and`, a true left operand of `or`)
         Block("and_rule", within="eval_expr", impl="impl Runtime",
               anchor=r"BinaryOp::And => ",
-              sig="fn and_rule(lv: Value, rv: Value) -> (res: Result<Value, RtErr>)",
-              ensures=["(lv == Value::Bool(false) || lv == Value::Null) ==> res == Ok::<Value, RtErr>(Value::Bool(false))",
-                       "!(lv == Value::Bool(false) || lv == Value::Null) && boolish(rv) ==> res == Ok::<Value, RtErr>(Value::Bool(truthy(rv)))",
-                       "!(lv == Value::Bool(false) || lv == Value::Null) && !boolish(rv) ==> res == Err::<Value, RtErr>(RtErr::TypeMismatch)"],
-              rewrites=[Rw("R11b", r"self\.eval_expr\(lhs\)\?", "lv"), Rw("R11b", r"self\.eval_expr\(rhs\)\?", "rv"), ERR],
+              sig="fn and_rule(me: &mut Ev) -> (res: Result<Value, RtErr>)",
+              requires=["old(me).lhs_evals@ == 0 && old(me).rhs_evals@ == 0"],
+              ensures=["final(me).lhs_evals@ == 1",
+                       "final(me).rhs_evals@ == (if old(me).lhs@ == Value::Bool(false) || old(me).lhs@ == Value::Null { 0nat } else { 1nat })",
+                       "(old(me).lhs@ == Value::Bool(false) || old(me).lhs@ == Value::Null) ==> res == Ok::<Value, RtErr>(Value::Bool(false))",
+                       "!(old(me).lhs@ == Value::Bool(false) || old(me).lhs@ == Value::Null) && boolish(old(me).rhs@) ==> res == Ok::<Value, RtErr>(Value::Bool(truthy(old(me).rhs@)))",
+                       "!(old(me).lhs@ == Value::Bool(false) || old(me).lhs@ == Value::Null) && !boolish(old(me).rhs@) ==> res == Err::<Value, RtErr>(RtErr::TypeMismatch)"],
+              rewrites=[Rw("R11b", r"self\.eval_expr\(lhs\)", "me.eval_lhs()"), Rw("R11b", r"self\.eval_expr\(rhs\)", "me.eval_rhs()"), ERR],
               real_name="Runtime::eval_expr (BinaryOp::And arm)"),
         Block("or_rule", within="eval_expr", impl="impl Runtime",
               anchor=r"BinaryOp::Or => ",
-              sig="fn or_rule(lv: Value, rv: Value) -> (res: Result<Value, RtErr>)",
-              ensures=["lv == Value::Bool(true) ==> res == Ok::<Value, RtErr>(Value::Bool(true))",
-                       "lv != Value::Bool(true) && boolish(rv) ==> res == Ok::<Value, RtErr>(Value::Bool(truthy(rv)))",
-                       "lv != Value::Bool(true) && !boolish(rv) ==> res == Err::<Value, RtErr>(RtErr::TypeMismatch)"],
-              rewrites=[Rw("R11b", r"self\.eval_expr\(lhs\)\?", "lv"), Rw("R11b", r"self\.eval_expr\(rhs\)\?", "rv"), ERR],
+              sig="fn or_rule(me: &mut Ev) -> (res: Result<Value, RtErr>)",
+              requires=["old(me).lhs_evals@ == 0 && old(me).rhs_evals@ == 0"],
+              ensures=["final(me).lhs_evals@ == 1",
+                       "final(me).rhs_evals@ == (if old(me).lhs@ == Value::Bool(true) { 0nat } else { 1nat })",
+                       "old(me).lhs@ == Value::Bool(true) ==> res == Ok::<Value, RtErr>(Value::Bool(true))",
+                       "old(me).lhs@ != Value::Bool(true) && boolish(old(me).rhs@) ==> res == Ok::<Value, RtErr>(Value::Bool(truthy(old(me).rhs@)))",
+                       "old(me).lhs@ != Value::Bool(true) && !boolish(old(me).rhs@) ==> res == Err::<Value, RtErr>(RtErr::TypeMismatch)"],
+              rewrites=[Rw("R11b", r"self\.eval_expr\(lhs\)", "me.eval_lhs()"), Rw("R11b", r"self\.eval_expr\(rhs\)", "me.eval_rhs()"), ERR],
               real_name="Runtime::eval_expr (BinaryOp::Or arm)"),
         Block("unary_dispatch", within="eval_expr", impl="impl Runtime",
               anchor=r"let v = self\.eval_expr\(expr\)\?;\s*match \(op, v\) ",
